@@ -84,7 +84,7 @@ MUT = {
   _MIR_duplicate_func_insns (ctx, func_item);'''),
         'swap_lists_late': ('mir.c', '''  func->insns = func->original_insns;
   DLIST_INIT (MIR_insn_t, func->original_insns);
-  for (MIR_lref_data_t lref = func->first_lref;''', '''  if (DLIST_LENGTH (MIR_insn_t, func->original_insns) != 7) func->insns = func->original_insns;
+  for (MIR_lref_data_t lref = func->first_lref;''', '''  if (func->first_lref == NULL) func->insns = func->original_insns;
   DLIST_INIT (MIR_insn_t, func->original_insns);
   for (MIR_lref_data_t lref = func->first_lref;'''),
         'addr_changes': ('mir-gen.c', '''    _MIR_redirect_thunk (ctx, func_item->addr, func_item->u.func->call_addr);
